@@ -241,7 +241,7 @@ func emitAv1Lossless(c *RNG, mtu int, os []av1OBU, emit func(op int, toks ...Tok
 }
 
 func genOBUs(c *RNG, mtu int) []av1OBU {
-	n := 1 + c.Intn(6)
+	n := 1 + c.Intn(8)
 	sameLayer := c.Bool()
 	var os []av1OBU
 	for i := 0; i < n; i++ {
@@ -250,7 +250,7 @@ func genOBUs(c *RNG, mtu int) []av1OBU {
 			o.typ = c.Pick(1, 3, 4, 5, 6, 6, 7)
 		}
 		if o.ext && !sameLayer {
-			o.tid, o.sid = c.Intn(3), c.Intn(2)
+			o.tid, o.sid = c.Pick(0, 1, 2, 7, c.Intn(8)), c.Pick(0, 1, 3, c.Intn(4)) // all 3-bit temporal and 2-bit spatial ids
 		}
 		var sz int
 		switch c.Intn(6) {
@@ -529,7 +529,7 @@ func init() {
 	}
 	register(&Prop{
 		ID:       "C13",
-		Rule:     "OBU sequences (1-6 OBUs, all 16 types with mass on 1/3/4/5/6/7, extension headers with equal or differing temporal/spatial ids, sizes 0-3, MTU-4..MTU+3, 120-139, 0-2xMTU, size field omitted on the last OBU in a third of cases) x MTU 2-400 (and 0-1): payloader output checked against the aggregation rules, fed to AV1Depacketizer and to AV1Packet+frame.AV1 and compared with the OBUs; garbage and mutated payloads for both receivers; payloader cases whose free packet space sits at the LEB128 size boundaries 128 and 16384 (-3..+6) behind 0-4 small OBUs; LEB128 at every 7-bit boundary +-2 and random 64-bit values; OBU header byte pairs on a 4096-point lattice (all 2^16 in thorough); non-trivial = >= 2 packets or an accepted payload",
+		Rule:     "OBU sequences (1-8 OBUs, all 16 types with mass on 1/3/4/5/6/7, extension headers with equal or differing temporal ids 0-7 and spatial ids 0-3, sizes 0-3, MTU-4..MTU+3, 120-139, 0-2xMTU, size field omitted on the last OBU in a third of cases) x MTU 2-400 (and 0-1): payloader output checked against the aggregation rules, fed to AV1Depacketizer and to AV1Packet+frame.AV1 and compared with the OBUs; garbage and mutated payloads for both receivers; element lengths and obu_size fields of 2^56 to 2^64-1 (9- and 10-byte LEB128) in every entry point; payloader cases whose free packet space sits at the LEB128 size boundaries 128 and 16384 (-3..+6) behind 0-4 small OBUs; LEB128 at every 7-bit boundary +-2 and random 64-bit values; OBU header byte pairs on a 4096-point lattice (all 2^16 in thorough); non-trivial = >= 2 packets or an accepted payload",
 		Quick:    4000,
 		Thorough: 200000,
 		Gen: func(r *RNG, tier string, n int, emit func(op int, toks ...Tok)) {
